@@ -107,8 +107,18 @@ fn body(ctx: &Ctx) -> (Summary, Meta) {
             out
         },
     );
+    let mut sum = sum;
+    sum.merge(run_jobs(ctx, "periodic-extrapolating-in-range", &[false, true], |f| format!("{}:far-start", if *f { "f32" } else { "f64" }), |f| {
+        let mut out = JobOut::default();
+        if *f {
+            run_far_start::<f32>(&mut out);
+        } else {
+            run_far_start::<f64>(&mut out);
+        }
+        out
+    }));
     let meta = Meta {
-        rule: "every (axis word, boundary configuration) is one built spline (state); per lane the Hermite pair of every interval is recovered from the implementation's samples at t=1/4,3/4 and (i) S(x_i)=y_i, (ii) the 5 other eighth-samples lie on that cubic, (iii) S' and (iv) S'' agree from both sides at every interior knot. Deliberately independent of which boundary rows are right. Non-trivial = lane with non-constant data. Extra jobs: axes of 100 - 1000 knots with 0 - 1 deviating intervals (Periodic, NotAKnot, Natural), nearly even axes (1/2 +- 2^-32); data sets whose lanes are scaled by 2^900, 2^-900 and 1 (whole-data-set boundary conditions); Periodic on every axis with data whose last value misses the first by 2^-22 relative: rejected by build() (counted) or, if accepted, held to the same four statements.".into(),
+        rule: "every (axis word, boundary configuration) is one built spline (state); per lane the Hermite pair of every interval is recovered from the implementation's samples at t=1/4,3/4 and (i) S(x_i)=y_i, (ii) the 5 other eighth-samples lie on that cubic, (iii) S' and (iv) S'' agree from both sides at every interior knot. Deliberately independent of which boundary rows are right. Non-trivial = lane with non-constant data. Extra jobs: axes of 100 - 1000 knots with 0 - 1 deviating intervals (Periodic, NotAKnot, Natural), nearly even axes (1/2 +- 2^-32); data sets whose lanes are scaled by 2^900, 2^-900 and 1 (whole-data-set boundary conditions); Periodic on every axis with data whose last value misses the first by 2^-22 relative: rejected by build() (counted) or, if accepted, held to the same four statements. Phase periodic-extrapolating-in-range: Periodic + extrapolate(true) on 18 axes per type that start 2^12 .. 2^30 away from cells of width 2^-30 .. 2^-48 (f32: 2^-14 .. 2^-22) around zero, and their mirror images: every knot returns its data value and every in-range query (quarter, mid, one ulp inside each knot) what the non-extrapolating spline over the same input returns.".into(),
         bounds: format!("{} axes (same alphabet as C03), 33 boundary configurations, 8 samples per interval, f64 and f32", axes.len()),
         assumptions: vec![
             "tolerances K*eps*scale (value), 64x /h (S'), 256x /h^2 (S''), scale = max(|y|,|a|,|b|) of the recovered pieces".into(),
@@ -116,6 +126,78 @@ fn body(ctx: &Ctx) -> (Summary, Meta) {
         extra: vec![],
     };
     (sum, meta)
+}
+
+/// Pass-through of an *extrapolating periodic* spline on axes that start far from fine cells around
+/// zero: inside the range the query must be used as it is (wrapping it "by zero periods" through
+/// `x - x0` rounds it onto another position). Knots must return the data, other in-range queries
+/// what the non-extrapolating spline over the same input returns.
+fn run_far_start<T: nimc::fl::Fl>(out: &mut JobOut) {
+    use nimc::fl::{vec_exact, Fl};
+    use nimc::subj::{build_spline, BcSpec};
+    use nimc::{catch, Json};
+    let exps: [i32; 3] = if T::NAME == "f32" { [-14, -18, -22] } else { [-30, -40, -48] };
+    for far in [1073741824.0f64, 1048576.0, 4096.0] {
+        for e in exps {
+            let f = 2.0f64.powi(e);
+            for mirrored in [false, true] {
+                let mut x64 = vec![-far, -1.0, -3.0 * f, -f, 0.0, f, 2.0 * f, 0.5, 3.0];
+                if mirrored {
+                    x64 = x64.iter().rev().map(|v| -v).collect();
+                }
+                let Some(xt) = vec_exact::<T>(&x64) else { continue };
+                let n = xt.len();
+                let mut y64: Vec<f64> = (0..n).map(|i| [0.75, -1.5, 2.0, 0.25, -0.5, 1.25, -2.0, 1.0, 0.0][i]).collect();
+                y64[n - 1] = y64[0];
+                let data = ndarray::Array2::from_shape_fn((n, 2), |(i, k)| T::from_f64_lossy(y64[i] * (1 + k) as f64));
+                let key = format!("{}:far-start:{far}:2^{e}:{}", T::NAME, if mirrored { "mirrored" } else { "plain" });
+                let (Ok(Ok(ext)), Ok(Ok(plain))) = (catch(|| build_spline::<T, _>(&xt, data.clone(), &BcSpec::Periodic, true)), catch(|| build_spline::<T, _>(&xt, data.clone(), &BcSpec::Periodic, false))) else {
+                    out.violate(key, "valid periodic input not accepted by build()".to_string(), Json::f64s(&x64));
+                    continue;
+                };
+                out.states += 1;
+                let mut qs: Vec<(T, Option<usize>)> = (0..n).map(|i| (xt[i], Some(i))).collect();
+                for w in xt.windows(2) {
+                    qs.push((w[0] + (w[1] - w[0]) * T::from_f64_lossy(0.25), None));
+                    qs.push((w[0] + (w[1] - w[0]) * T::from_f64_lossy(0.5), None));
+                    qs.push((w[0].up(), None));
+                    qs.push((w[1].down(), None));
+                }
+                for (q, knot) in qs {
+                    let (a, b) = (catch(|| ext.interp(q)), catch(|| plain.interp(q)));
+                    out.evals += 1;
+                    out.nontrivial += 1;
+                    out.transitions += 2;
+                    let bad = match (&a, &b) {
+                        (Ok(Ok(a)), Ok(Ok(b))) => {
+                            let mut bad = None;
+                            for k in 0..2 {
+                                let (va, vb) = (Fl::to_f64(a[k]), Fl::to_f64(b[k]));
+                                let scale = 16.0 * (1 + k) as f64;
+                                if let Some(i) = knot {
+                                    let want = y64[i] * (1 + k) as f64;
+                                    if !((va - want).abs() <= 64.0 * T::EPS * scale) {
+                                        bad = Some(format!("at knot {i} (x = {:e}) the extrapolating periodic spline returns {va:e}, the data value is {want:e}", x64[i]));
+                                    }
+                                }
+                                if !((va - vb).abs() <= 4096.0 * T::EPS * scale.max(vb.abs())) {
+                                    bad = bad.or(Some(format!("at the in-range query {:e} the extrapolating periodic spline returns {va:e}, the same spline without extrapolation {vb:e}", Fl::to_f64(q))));
+                                }
+                            }
+                            bad
+                        }
+                        _ => Some(format!("in-range query {:e} not answered: {:?} / {:?}", Fl::to_f64(q), a.as_ref().map(|r| r.as_ref().map(|_| ()).map_err(|e| e.to_string())), b.as_ref().map(|r| r.as_ref().map(|_| ()).map_err(|e| e.to_string())))),
+                    };
+                    out.outcome(if bad.is_none() { "far-start:ok" } else { "far-start:bad" });
+                    if let Some(w) = bad {
+                        out.violate(key.clone(), format!("CubicSpline/Periodic with extrapolate(true) over x = {x64:?}: {w}"), Json::obj(vec![("type", Json::str(T::NAME)), ("x", Json::f64s(&x64)), ("query", Json::Num(Fl::to_f64(q)))]));
+                        break;
+                    }
+                }
+            }
+        }
+    }
+    out.sample = Some(Json::str("axes [-far, -1, -3f, -f, 0, f, 2f, 1/2, 3] and mirrored; far = 2^30, 2^20, 2^12; f = 2^-30 .. 2^-48 (f32: 2^-14 .. 2^-22)"));
 }
 
 fn main() {
